@@ -101,3 +101,16 @@ Example C14_noncanonical_ids_exist :
   b64url_dec (s2l "AP8Q_gM=") = Ok raw /\ s2l "AP8Q_gM=" <> b64url_enc raw /\
   b64url_dec (s2l "AP8Q/gM") = Ok raw /\ s2l "AP8Q/gM" <> b64url_enc raw.
 Proof. vm_compute. repeat split; discriminate. Qed.
+
+(* non-vacuity on the really signed example assertion: accepted as it is; with '=' appended to
+   `id` (which still decodes to rawId) it is refused, everything else being equal *)
+From PW Require Import Proofs.Examples.
+Definition with_id (c : auth_cred) (i : pystr) : auth_cred :=
+  {| acr_id := i; acr_raw_id := acr_raw_id c; acr_type := acr_type c; acr_client_data := acr_client_data c;
+     acr_auth_data := acr_auth_data c; acr_signature := acr_signature c; acr_user_handle := acr_user_handle c;
+     acr_attachment := acr_attachment c |}.
+Example C14_anchor_nonvacuous :
+  verify_auth_rec ex_oracles ex_policy ex_cred = Ok ex_result /\
+  b64url_dec (acr_id ex_cred ++ [61]) = Ok (acr_raw_id ex_cred) /\
+  is_ok (verify_auth_rec ex_oracles ex_policy (with_id ex_cred (acr_id ex_cred ++ [61]))) = false.
+Proof. vm_compute. repeat split. Qed.
